@@ -42,14 +42,17 @@ def r1(ctx):
                 if v is None and r["k"] == "use":
                     o = origin(b, r["o"])
                     v = o["r"].get("variant") if o["k"] == "agg" else "?"
-                k = f"status-write:{b.id}:{v}"
+                rootb = b
+                while rootb.parent and rootb.parent in ctx.w.bodies:
+                    rootb = ctx.w.bodies[rootb.parent]
+                k = f"status-write:{rootb.id}:{v}"
                 if v == "Hold":
-                    ok = b.id == "turmoil::top::Link::hold"
-                    ctx.inst(R, k, ok, s["s"], "hold() marks queued messages held" if ok else f"`{b.id}` marks messages held outside Link::hold")
+                    ok = rootb.id == "turmoil::top::Link::hold"
+                    ctx.inst(R, k, ok, s["s"], "hold() marks queued messages held" if ok else f"`{rootb.id}` marks messages held outside Link::hold")
                 else:
-                    ok = b.id == "turmoil::top::Sent::deliver"
+                    ok = rootb.id == "turmoil::top::Sent::deliver"
                     ctx.inst(R, k, ok, s["s"], "status made deliverable in Sent::deliver" if ok else
-                             f"`{b.id}` makes a queued message deliverable (status := {v}) outside Sent::deliver: a held message can be un-held without release")
+                             f"`{rootb.id}` makes a queued message deliverable (status := {v}) outside Sent::deliver: a held message can be un-held without release")
     callers = {
         "turmoil::top::Sent::deliver": {"turmoil::top::Link::release", "turmoil::top::SentRef::deliver"},
         "turmoil::top::Link::release": {"turmoil::top::Topology::release"},
@@ -110,6 +113,20 @@ def r2(ctx):
                         back = h.reachable(m["Some"][1], removed_blocks=[x for x, _ in wr], stop=[nb])
                         if nb in back:
                             ok = False
+        if not ok:
+            # accepted idiom: self.sent.iter_mut().for_each(|sent| sent.status = Hold) with no filtering adaptor in between
+            fe = [(bb, t) for bb, t in h.calls(re.compile(r"Iterator>::for_each$|^std::iter::Iterator::for_each$"))]
+            adapt = [t["f"] for bb, t in h.calls(re.compile(r"Iterator>::(filter|skip|take|step_by|skip_while|take_while|filter_map|rev)$|^std::iter::Iterator::(filter|skip|take|step_by|skip_while|take_while|filter_map)$"))]
+            src = any("field:" + SENT in Slicer(ctx.w).atoms(h, t["args"][0]) and any(a.startswith("call:std::collections::VecDeque::iter_mut") for a in Slicer(ctx.w).atoms(h, t["args"][0])) for bb, t in fe)
+            allw = False
+            for bb, t in fe:
+                for cid in closure_args(h, t):
+                    cb = ctx.w.bodies.get(cid)
+                    if cb:
+                        w2 = [x for x, i, s2 in cb.all_stmts() if place_last_field(s2["p"]) == STATUS]
+                        allw = bool(w2) and not always_passes(cb, w2)
+            ok = bool(fe) and src and not adapt and allw
+            wr = wr or [(fe[0][0], fe[0][1])] if fe else wr
         ctx.inst(R, "hold:marks-every-queued", ok, (wr[0][1]["s"] if wr else h.span), "every queued message is marked Hold" if ok else
                  "Link::hold no longer marks every queued message as held: messages in flight are delivered during the hold")
     ctx.floor(R, 3)
